@@ -80,6 +80,23 @@ CHECKS = {
              "structure.Lambda arity is an int or 'default' at its "
              "construction site.",
         ref="DESIGN.md §3 C18"),
+    "C19": dict(
+        technique="whole-package inventory of dynamic-evaluation and "
+                  "host-output call sites with argument-provenance "
+                  "classification + guard-dominance analysis for "
+                  "`not ctx.online` + try/handler structure of execute_vyxal",
+        category="other",
+        text="Decides the named channels structurally for all programs and "
+             "inputs: every eval/exec/compile/os.system/subprocess site in "
+             "vyxal/*.py and in every element template is classified "
+             "(generated-by-transpile, numeric, constant, user text); every "
+             "user-text evaluation and every print/sys.stdout/prompting "
+             "input() site must be dominated by `not ctx.online`; vy_eval's "
+             "online arm uses ast.literal_eval only; execute_vyxal's "
+             "program-dependent statements all sit in try blocks whose online "
+             "arm records and does not re-raise; the flag is set first and "
+             "written nowhere else; flask_app passes online_mode=True.",
+        ref="DESIGN.md §3 C19"),
     "C20": dict(
         technique="constant folding of code page / tables + abstract lexer "
                   "head-dispatch table, exhaustive over all keys",
